@@ -49,6 +49,7 @@ type Prog struct {
 	regObjs       []types.Object // keys this program added to the global registries (Release removes them)
 	regFns        []*ssa.Function
 	regIfaceAlias []*types.Func
+	regSole       []*ssa.Function
 	byName        map[string]*ssa.Function
 	CG            *callgraph.Graph // Deep only
 	NPkgs         int              // all packages in the import graph
@@ -433,6 +434,10 @@ func (p *Prog) Release() {
 		delete(ifaceAlias, m)
 	}
 	p.regIfaceAlias = nil
+	for _, f := range p.regSole {
+		delete(soleSites, f)
+	}
+	p.regSole = nil
 	helperMu.Unlock()
 	p.regObjs, p.regFns, p.regGlobals = nil, nil, nil
 	paramMapMu.Lock()
